@@ -57,7 +57,7 @@ struct VGroupP : Profile {
     std::vector<std::string> required_probes() const override
     {
         return {"members>64", "name>64", "duplicate-member", "insert-vgroup", "insert-vdata", "delete-member", "delete-vgroup",
-                "delete-vdata", "two-handles-same-vgroup", "restart", "lone-checked", "rename-shrink-by-1", "insert-foreign-refused"};
+                "delete-vdata", "two-handles-same-vgroup", "restart", "lone-checked", "rename-shrink-by-1", "insert-foreign-refused", "getnext-checked", "name>65535-refused"};
     }
 
     Plan generate(Rng &rng, bool thorough, uint64_t) override
@@ -103,7 +103,7 @@ struct VGroupP : Profile {
                     break;
                 case 3:
                 case 4: // new length: absolute, or relative to the current one (-1: shrink by exactly one)
-                    p.ops.push_back(mkop(c, names[k], {sl, r.chance(0.3) ? -1 : nlen(), (int64_t)r.below(1000)}));
+                    p.ops.push_back(mkop(c, names[k], {sl, r.chance(0.04) ? 65536 + (int64_t)r.below(5000) : r.chance(0.3) ? -1 : nlen(), (int64_t)r.below(1000)}));
                     break;
                 case 5: // kind: 0 plain tag/ref, 1 a vdata, 2 a vgroup, 3 duplicate of an existing member
                     p.ops.push_back(mkop(c, names[k], {sl, (int64_t)r.below(4), (int64_t)r.below(6), (int64_t)r.below(8)}));
@@ -237,6 +237,33 @@ struct VGroupP : Profile {
             if (tr.first == DFTAG_VG || tr.first == DFTAG_VH)
                 sub.push_back(tr.second);
         (void)sub;
+        {
+            // Vgetnext(id): the member after the first VG/VH member with that ref, if that one is a VG/VH member too;
+            // -1 asks for the first member.  Members of other tags may carry the same reference numbers.
+            auto vset = [](const TR &t) { return t.first == DFTAG_VG || t.first == DFTAG_VH; };
+            auto want = [&](int32 id) -> int32 {
+                if (m.mem.empty())
+                    return FAIL;
+                if (id == -1 && vset(m.mem[0]))
+                    return m.mem[0].second;
+                for (size_t u = 0; u < m.mem.size(); u++)
+                    if (vset(m.mem[u]) && (uint16)m.mem[u].second == (uint16)id)
+                        return u + 1 < m.mem.size() && vset(m.mem[u + 1]) ? m.mem[u + 1].second : FAIL;
+                return FAIL;
+            };
+            std::set<int32> ids = {-1};
+            for (auto &tr : m.mem)
+                ids.insert(tr.second);
+            int tried = 0;
+            for (int32 id : ids) {
+                if (++tried > 40)
+                    break;
+                int32 got = Vgetnext(vkey, id), exp = want(id);
+                if (got != exp)
+                    ctx.fail("member-mismatch", "member-mismatch:getnext", strf("Vgetnext(%d) = %d, the member list says %d (%s)", (int)id, (int)got, (int)exp, when));
+            }
+            ctx.probe("getnext-checked");
+        }
         for (auto &tr : m.mem) {
             if (tr.first == DFTAG_VG && Visvg(vkey, tr.second) != TRUE)
                 ctx.fail("member-mismatch", "member-mismatch:isvg", strf("Visvg(%d) is false for a vgroup member (%s)", (int)tr.second, when));
@@ -444,6 +471,15 @@ struct VGroupP : Profile {
                     if (o.arg(1) < 0)
                         ctx.probe("rename-shrink-by-1");
                     std::string nn = mkname(isname ? "vg" : "cl", isname ? sl->g : sl->g % 2, len, o.arg(2));
+                    if (len > 65535) {
+                        // longer than the record can say: refused, and the group keeps the name (class) it has
+                        intn rr = isname ? Vsetname(sl->vkey, nn.c_str()) : Vsetclass(sl->vkey, nn.c_str());
+                        if (rr != FAIL)
+                            ctx.fail("setname-mismatch", "setname-mismatch:over-long-accepted", strf("%s with %zu characters is accepted", k.c_str(), nn.size()));
+                        ctx.probe("name>65535-refused");
+                        ctx.st.ops_done++;
+                        continue;
+                    }
                     intn        r  = isname ? Vsetname(sl->vkey, nn.c_str()) : Vsetclass(sl->vkey, nn.c_str());
                     if (r == FAIL)
                         ctx.fail("setname-refused", "setname-refused", strf("%s with %zu characters failed", k.c_str(), nn.size()));
